@@ -195,6 +195,30 @@ fn child_default_any(sig: i32, e: &mut Emit) {
     }
 }
 
+/// `register_conditional_default` on a signal whose default is to stop: armed -> the delivery stops the
+/// process; after it was continued and the condition disarmed, the next delivery does nothing (and a
+/// flag registered on the same signal is still set by it).
+fn child_default_stop(sig: i32, e: &mut Emit) {
+    let cond = Arc::new(AtomicBool::new(true));
+    let flag = Arc::new(AtomicBool::new(false));
+    signal_hook::flag::register(sig, flag.clone()).unwrap();
+    signal_hook::flag::register_conditional_default(sig, cond.clone()).unwrap();
+    let deliver = || unsafe {
+        libc::syscall(libc::SYS_tgkill, libc::getpid(), libc::syscall(libc::SYS_gettid) as libc::pid_t, sig);
+    };
+    e.line("armed-delivery");
+    deliver(); // stops here; the checker continues the process
+    e.line("continued-after-stop");
+    cond.store(false, Ordering::SeqCst);
+    flag.store(false, Ordering::SeqCst);
+    deliver();
+    e.line(&format!("disarmed-delivery-returned flag={}", flag.load(Ordering::SeqCst) as u8));
+    e.line("survived");
+    unsafe {
+        libc::_exit(0);
+    }
+}
+
 fn linux_default_terminates(sig: i32) -> bool {
     ![libc::SIGCHLD, libc::SIGCONT, libc::SIGURG, libc::SIGWINCH, libc::SIGSTOP, libc::SIGTSTP, libc::SIGTTIN, libc::SIGTTOU].contains(&sig)
 }
@@ -286,6 +310,19 @@ pub fn run(tier: Tier) -> BResult {
     let any_sigs: Vec<i32> = (1..=64).filter(|s| !forbidden(*s) && *s != 32 && *s != 33 && ![libc::SIGTSTP, libc::SIGTTIN, libc::SIGTTOU].contains(s)).collect();
     let any2 = any_sigs.clone();
     let aprobes = run_cells(any_sigs.len(), 16, Duration::from_secs(20), move |i, e| child_default_any(any2[i], e));
+    // stop-kind signals: inside a process group that is not orphaned (the kernel discards terminal stop
+    // signals in orphaned groups): an intermediate child makes a new group, this checker stays in the old one
+    let stop_sigs = [libc::SIGTSTP, libc::SIGTTIN, libc::SIGTTOU];
+    let souter = run_cells(1, 1, Duration::from_secs(120), move |_, e| {
+        unsafe {
+            libc::setpgid(0, 0);
+        }
+        let inner = run_cells(stop_sigs.len(), 3, Duration::from_secs(20), move |i, e2| child_default_stop(stop_sigs[i], e2));
+        for (i, p) in inner.iter().enumerate() {
+            e.line(&format!("{}|{}|{}|{}", i, p.fate.describe(), p.after_cont.as_ref().map_or("-".to_string(), |f| f.describe()), p.lines.join(";")));
+        }
+        e.line("outer-done");
+    });
     let cells2 = cells.clone();
     let dcells2 = dcells.clone();
     let nmain = cells.len();
@@ -303,6 +340,32 @@ pub fn run(tier: Tier) -> BResult {
     let mut classes: std::collections::BTreeMap<String, u64> = Default::default();
     let mut distinct = std::collections::HashSet::new();
     let mut transitions = 0u64;
+    if !souter[0].has("outer-done") {
+        violations.push(BViolation { message: format!("engine: stop-signal probe group failed: {:?}", souter[0].fate), case: json!({}) });
+    }
+    for l in souter[0].lines.iter().filter(|l| l.contains('|')) {
+        let parts: Vec<&str> = l.split('|').collect();
+        if parts.len() != 4 {
+            continue;
+        }
+        let sig = stop_sigs[parts[0].parse::<usize>().unwrap_or(0)];
+        transitions += 4;
+        *classes.entry("conditional-default:stop-kind".into()).or_insert(0) += 1;
+        let case = json!({"entry": "register_conditional_default", "signal": sig, "history": "armed delivery (stops), continued, disarmed, delivery"});
+        let (first, after, lines) = (parts[1], parts[2], parts[3]);
+        let bad = if !first.starts_with("stopped") {
+            Some(format!("armed, but the first delivery did not stop the process: {}", first))
+        } else if after != "exited(0)" || !lines.contains("survived") {
+            Some(format!("after it was continued and the condition disarmed, the next delivery must do nothing, but the process {} (reported: {})", after, lines))
+        } else if !lines.contains("disarmed-delivery-returned flag=1") {
+            Some(format!("the flag registered on the same signal was not set by the later delivery (the library's handler no longer gets the signal): {}", lines))
+        } else {
+            None
+        };
+        if let Some(m) = bad {
+            violations.push(BViolation { message: format!("C15: register_conditional_default / stop signal {}: {}", sig, m), case });
+        }
+    }
     for (i, p) in aprobes.iter().enumerate() {
         let sig = any_sigs[i];
         transitions += 2;
@@ -419,7 +482,7 @@ pub fn run(tier: Tier) -> BResult {
         violations,
         exhaustive: true,
         caps: vec![],
-        rule: format!("every history of length 1..{} over {{deliver, app stores true, app stores false, app stores another value}} containing a delivery x both registration orders x termination signals (full depth for all, all lengths for the first) x how the condition is shared (a clone; or, with the first signal, the only strong handle moved into the registration while the application arms through a weak one) + exit statuses {:?}.. on canonical histories; reference model = one boolean; register_conditional_default armed on every signal 1..64 it accepts (one delivery: the platform default per the checker's own table); the canonical histories again in processes with a second live thread (deliveries on the main thread / on the other one); plus register_conditional_default: every history of length <= 3 over (deliver, arm, disarm) x termination signals x (undisturbed / another thread installs a handler right before the library re-raises, injected at the interposed raise / another termination signal blocked and pending) - terminated in exactly the first armed delivery; distinct = distinct (order, fatal delivery index, child fate, length)", depth, &statuses[..statuses.len().min(4)]),
+        rule: format!("every history of length 1..{} over {{deliver, app stores true, app stores false, app stores another value}} containing a delivery x both registration orders x termination signals (full depth for all, all lengths for the first) x how the condition is shared (a clone; or, with the first signal, the only strong handle moved into the registration while the application arms through a weak one) + exit statuses {:?}.. on canonical histories; reference model = one boolean; register_conditional_default on the stop signals (armed delivery stops, continued, disarmed delivery does nothing; in a non-orphaned process group); register_conditional_default armed on every signal 1..64 it accepts (one delivery: the platform default per the checker's own table); the canonical histories again in processes with a second live thread (deliveries on the main thread / on the other one); plus register_conditional_default: every history of length <= 3 over (deliver, arm, disarm) x termination signals x (undisturbed / another thread installs a handler right before the library re-raises, injected at the interposed raise / another termination signal blocked and pending) - terminated in exactly the first armed delivery; distinct = distinct (order, fatal delivery index, child fate, length)", depth, &statuses[..statuses.len().min(4)]),
         assumptions: vec!["exit-time hooks observed through libc::atexit".into()],
     }
 }
